@@ -31,7 +31,11 @@ class Module:
                 self.classes[n.name] = n
                 for m in n.body:
                     if isinstance(m, ast.FunctionDef):
-                        self.funcs.setdefault(n.name + '.' + m.name, m)
+                        key = n.name + '.' + m.name
+                        for d in m.decorator_list:
+                            if isinstance(d, ast.Attribute) and d.attr == 'setter':
+                                key += '.setter'
+                        self.funcs.setdefault(key, m)
             elif isinstance(n, ast.ImportFrom):
                 for a in n.names:
                     self.imports[a.asname or a.name] = (n.module, a.name)
